@@ -150,11 +150,14 @@ Theorem C03_status_nothing_failed :
 Proof. exact no_failure_no_exit_error. Qed.
 Print Assumptions C03_status_nothing_failed.
 
-(* NOT proved: clause 2 of mon_C03_status for runs with exactly one failing command (the error
-   reported is the task-run error carrying exactly its exit status).  It does not hold of every
-   program: when a sibling dependency fails through a guard (here: a missing required variable,
-   error 206) while the failing command is still running, the command ends under a cancelled
-   context and Run reports the guard's error.  mon_C03 and clause 1 hold of this run. *)
+(* Clause 2 of mon_C03_status (with exactly one failing command, the error reported is the task-run
+   error carrying exactly its exit status) is only demanded of programs in which commands are the
+   only source of errors (only_cmd_errors: no guard can fail, the call counter cannot trip).  The
+   restriction is needed: when a sibling dependency fails through a guard (here: a missing required
+   variable, error 206) while the failing command is still running, the command ends under a
+   cancelled context and Run reports the guard's error.  The monitor accepts that run (an earlier
+   version of the monitor rejected it; found by this proof attempt, corrected before it could
+   raise a false alarm on the implementation). *)
 Definition exg_mk (deps : list call) (cmds : list cmd) (g : guards) : task :=
   {| t_deps := deps; t_cmds := cmds; t_run := Always; t_ignore := false; t_internal := false; t_g := g |}.
 Definition exg_call (t : nat) : call := {| c_task := t; c_var := VConst 0 |}.
@@ -172,14 +175,16 @@ Definition exg_sched : list choice :=
   ChRoot 0 :: repeat (ChStep 0) 5 ++ repeat (ChStep 2) 10 ++ [ChStep 1] ++ repeat (ChStep 2) 10 ++ repeat (ChStep 0) 10.
 Definition exg_trace : list event := trace (run exg_prog exg_cfg exg_sched).
 
-Example C03_status_clause2_not_universal :
+Example C03_status_guard_error_may_win :
   failing_ends exg_prog exg_cfg exg_trace = [([0; 1], 0)] /\
   run_result exg_prog exg_cfg (run exg_prog exg_cfg exg_sched) = Some (RErr (ECode 206)) /\
   mon_C03 exg_prog exg_cfg exg_trace = true /\
   status_clause1 exg_prog exg_cfg exg_trace (RErr (ECode 206)) = true /\
-  status_clause2 exg_prog exg_cfg exg_trace (RErr (ECode 206)) = false.
+  only_cmd_errors exg_prog exg_cfg = false /\
+  status_clause2 exg_prog exg_cfg exg_trace (RErr (ECode 206)) = true /\
+  status_clause2 exg_prog exg_cfg exg_trace ROk = false.
 Proof. vm_compute. repeat split; reflexivity. Qed.
-Print Assumptions C03_status_clause2_not_universal.
+Print Assumptions C03_status_guard_error_may_win.
 
 (* non-vacuity: root task 0 depends on task 1, which calls task 2, whose second command exits
    with 3 (after registering a deferred command).  The failure kills the callee, its caller and
